@@ -24,8 +24,8 @@ MANIFEST = {
                 "Unpad never slices out of range, and that encrypt-then-decrypt with the same key is the identity on the "
                 "block/padding structure; over all namespace names of up to 3 segments from 9-13 segment classes ('..', '.', "
                 "empty, absolute, '..a', blanks, forbidden and unusual characters, over-long) and 4 coordinator-root classes "
-                "whether the path the local client resolves lies inside its storage root (it does not for names resolving to "
-                "the root itself: counterexample replayed).  Every enumerated case carries the specification's expected "
+                "that the path the local client resolves lies inside its storage root or is refused (before fix 894f0d4 TLC "
+                "found the escape for names resolving to the root itself; the stored cases keep watching it).  Every enumerated case carries the specification's expected "
                 "outcome and is replayed on the real Verify/Encrypt/Encode/Store/LocalClient/file-client code.",
         "design_ref": "DESIGN.md section 5 C33, section 4.1 ConfigStore",
     },
@@ -60,7 +60,7 @@ PKG = "models"
 RUN = "^TestVerifConfigStore$"
 
 
-def cfg(spec="Spec", bs=4, byts=(0, 1, 4, 5, 9), maxlen=5, segs=SEGS_Q, maxsegs=3, inv="PaddingOK RoundTripOK PathsFixOK", extra=""):
+def cfg(spec="Spec", bs=4, byts=(0, 1, 4, 5, 9), maxlen=5, segs=SEGS_Q, maxsegs=3, inv="PaddingOK RoundTripOK PathsOK", extra=""):
     return CFG % dict(spec=spec, bs=bs, bytes=", ".join(str(b) for b in byts), maxlen=maxlen, segs=K.tla_set(segs), maxsegs=maxsegs,
                       inv=inv, extra=extra)
 
@@ -121,13 +121,9 @@ def run(ctx):
         mcs = [dict(bs=4, maxlen=7, segs=SEGS_T), dict(bs=3, byts=(0, 1, 3, 4, 8), maxlen=7, segs=SEGS_Q), dict(bs=2, byts=(0, 1, 2, 3, 7), maxlen=6, segs=SEGS_Q)]
     for m in mcs:
         r = ctx.tlc("ConfigStore", "cs.cfg", extra_files={"cs.cfg": cfg(**m)}, timeout=1500, heap="8g",
-                    label="padding, round trip, confinement with the proposed fix %s" % {k: v for k, v in m.items() if k != "segs"})
+                    label="padding, round trip, confinement %s" % {k: v for k, v in m.items() if k != "segs"})
         ctx.log("mc", {k: v for k, v in m.items() if k != "segs"}, r.stats(), "%.1fs" % r.wall)
-    r = ctx.tlc("ConfigStore", "cs.cfg", extra_files={"cs.cfg": cfg(bs=4, byts=(0, 1), maxlen=1, segs=SEGS_T if thorough else SEGS_Q, inv="PathsOK")},
-                allow_violation=True, timeout=900, label="confinement of the resolution as written")
-    ctx.cov["design_level_results"] = {"Confined (local_client.go as written)": r.violated or "holds",
-                                       "PadRoundTrip, UnpadTotal, SeqRoundTrip, ConfinedWithFix": "hold"}
-    ctx.log("design-level: Confined as written ->", r.violated or "holds")
+    ctx.cov["design_level_results"] = {"PadRoundTrip, UnpadTotal, SeqRoundTrip, Confined": "hold"}
 
     # 2. G: the enumerated cases on the real code
     segs = SEGS_T if thorough else SEGS_Q
@@ -142,7 +138,15 @@ def run(ctx):
         must = [c for c in inside if c["expect"]["loc"]["why"] == "traversal"]
         rest = [c for c in inside if c["expect"]["loc"]["why"] != "traversal"]
         inside = must + rng.sample(rest, min(len(rest), 450))
-        rts = rng.sample(rts, min(len(rts), 260))
+        # every field-class assignment at least once with a valid key, the rest sampled
+        by_cfg = {}
+        for c in rts:
+            if c["case"]["key"] in ("k16", "k24", "k32"):
+                by_cfg.setdefault(json.dumps(c["case"]["cfg"], sort_keys=True), []).append(c)
+        picked = [rng.choice(v) for k, v in sorted(by_cfg.items())]
+        ids = {id(c) for c in picked}
+        rest = [c for c in rts if id(c) not in ids]
+        rts = picked + rng.sample(rest, min(len(rest), 200))
     nontriv = set()
     for c in outside + inside:
         n = c["case"]["name"]
